@@ -393,6 +393,23 @@ def expand_dnf(T, dnf):
     return res
 
 
+def canon_lit(l):
+    """one spelling per literal: operands of symmetric comparisons sorted, a > b written b < a, and `!(a != b)` written `a == b`"""
+    import decisions
+    l = decisions.canon_term(l)
+    for a, b in (('!PartialEq::ne(', 'PartialEq::eq('), ('!ne(', 'eq('), ('!PartialEq::eq(', 'PartialEq::ne('), ('!eq(', 'ne(')):
+        if l.startswith(a):
+            return b + l[len(a):]
+    return l
+
+
+def norm_dnf(T, dnf):
+    """truth condition with crate-local bool helpers inlined and every literal in canonical spelling"""
+    if not dnf:
+        return dnf
+    return [frozenset(canon_lit(l) for l in c) for c in expand_dnf(T, dnf)]
+
+
 def literal_alternatives(T, fn, facts):
     """list of literal sets: fact_literals with bool-helper calls replaced by their conditions; a requirement on the facts must hold for EVERY alternative"""
     base = fact_literals(T, fn, facts)
